@@ -150,6 +150,36 @@ Section Theory.
     unfold visible. simpl. rewrite H1, H2, H3. repeat split; reflexivity.
   Qed.
 
+  (* the same when the delete of the new pack FAILS inside abort (with or without suppress_errors):
+     the cleanup of the indices and of _new_pack happens regardless, so nothing of the group stays
+     visible and the object can start the next write group *)
+  Lemma abort_fault_same_state : forall s w sup, wg s = Some w -> broken s = false -> wres w = [] ->
+    fst (step (AbortF sup) s) = fst (step Abort s).
+  Proof.
+    intros s w sup Hw Hb Hr. unfold WriteGroup.step. rewrite Hb, Hw, Hr. simpl.
+    rewrite nremove_all_nil. reflexivity.
+  Qed.
+
+  Theorem abort_fault_invisible : forall s ks sup, wg s = None -> broken s = false ->
+    let s' := run (Start :: map Ins ks ++ [AbortF sup]) s in
+    listed s' = listed s /\ upload s' = upload s /\ visible s' = visible s /\ view s' = view s /\
+    wg s' = None /\ broken s' = false /\ resident s' = resident s /\
+    snd (step Start s') = ROk /\
+    s' = run (Start :: map Ins ks ++ [Abort]) s.
+  Proof.
+    intros s ks sup Hw Hb.
+    assert (Heq : run (Start :: map Ins ks ++ [AbortF sup]) s = run (Start :: map Ins ks ++ [Abort]) s).
+    { simpl. rewrite (step_start s Hw Hb). simpl. set (s1 := St _ _ _ _ _ _ _). rewrite !run_app.
+      destruct (run_inserts_shape ks s1 (WG [] []) eq_refl eq_refl) as (_ & _ & _ & H4 & H5 & _).
+      simpl in H5. simpl. apply (abort_fault_same_state _ _ sup H5 H4). reflexivity. }
+    cbv zeta. rewrite Heq.
+    destruct (abort_invisible s ks Hw Hb) as (H1 & H2 & H3 & H4 & H5 & H6).
+    set (s' := run (Start :: map Ins ks ++ [Abort]) s) in *.
+    repeat split; try assumption.
+    - unfold view. rewrite H3, H4, Hw. reflexivity.
+    - rewrite (step_start s' H4 H5). reflexivity.
+  Qed.
+
   (* for groupcompress repositories the whole writer state is restored *)
   Theorem abort_restores_state_gc : forall s ks, is_gc = true ->
     wg s = None -> broken s = false -> mcp s = [] -> newrevs s = [] ->
@@ -218,7 +248,7 @@ Section Theory.
     intros o s HI. unfold WriteGroup.step.
     destruct (broken s) eqn:Hb; [exact HI|].
     destruct (HI Hb) as [Hm Hw]. clear HI.
-    destruct o as [|k| | |ts| |]; destruct (wg s) as [w|] eqn:Ew; simpl;
+    destruct o as [|k| | |ts| | |sup|]; destruct (wg s) as [w|] eqn:Ew; simpl;
       try (intros _; rewrite ?Ew; split; [exact Hm|exact Hw]);
       try (intros _; split; [exact Hm|reflexivity]).
     - (* Start *) intros _. split; [exact Hm|]. simpl. repeat split; [intros n []|constructor|].
@@ -248,6 +278,7 @@ Section Theory.
           -- intro H; discriminate.
       + intros _. rewrite Ew. split; [intro Hg; specialize (Hm Hg); discriminate|exact Hw].
     - (* Reopen *) intros _. split; [intros; reflexivity|reflexivity].
+    - (* AbortF *) destruct (wres w); simpl; [intros _; split; [exact Hm|reflexivity]|intro H; discriminate].
   Qed.
 
   Theorem Inv_run : forall ops s, Inv s -> Inv (run ops s).
